@@ -114,7 +114,7 @@ Inductive ext :=
 | EFakeTokenBinding (major minor : N) (params : bytes)
 | EFakeDelegatedCredentials (algs : list N)
 | ESessionTicket (ticket : bytes)
-(* Session != nil; *cachedLength if set; OmitEmptyPsk; Identities; Binders *)
+(* Session != nil; (unused, formerly *cachedLength); OmitEmptyPsk; Identities; Binders *)
 | EUtlsPreSharedKey (has_session : bool) (cached : option N) (omit : bool)
                     (ids : list psk_identity) (binders : list bytes)
 | EFakePreSharedKey (omit : bool) (ids : list psk_identity) (binders : list bytes)
@@ -176,10 +176,11 @@ Definition read_psk (n : N) (ids : list psk_identity) (bs : list bytes) : res by
 (* validHashLen = hash sizes of cipherSuitesTLS13 (SHA-256, SHA-256, SHA-384) *)
 Definition valid_binder_len (l : N) : bool := (l =? 32) || (l =? 48).
 
-(* UtlsPreSharedKeyExtension.Len, u_pre_shared_key.go:183 *)
+(* UtlsPreSharedKeyExtension.Len, u_pre_shared_key.go:183. Since fix C08-psk-len-after-edit the
+   length is recomputed on every call; the former *cachedLength (argument `cached`, kept so that
+   the constructor keeps its shape; the harness passes None) no longer exists. *)
 Definition utls_psk_len (has_session : bool) (cached : option N) (ids : list psk_identity) (bs : list bytes) : N :=
-  if negb has_session then 0
-  else match cached with Some c => c | None => psk_ext_len ids bs end.
+  if negb has_session then 0 else psk_ext_len ids bs.
 
 (* ---- Len() ---- *)
 Definition ext_len (e : ext) : N :=
